@@ -255,6 +255,27 @@ def canon_events(evs):
     return rep, aof
 
 
+_CORRUPT_LINE = {}
+
+
+def _line_corrupt(ln):
+    r = _CORRUPT_LINE.get(ln)
+    if r is None:
+        r = ""
+        if "freed" in ln:
+            r = "freed-record-reachable"
+        else:
+            for tok in ln.replace("cur=", " ").replace("holders=[", " ").replace("waiters=[", " ").replace("]", " ").split():
+                parts = tok.split(":")
+                if len(parts) == 13 and parts[3].isdigit() and int(parts[3]) >= 200:
+                    r = "refcount-underflow"
+                    break
+        if len(_CORRUPT_LINE) > 300000:
+            _CORRUPT_LINE.clear()
+        _CORRUPT_LINE[ln] = r
+    return r
+
+
 def snapshot_corrupt(snap_lines):
     """a freed lock record reachable from a key's queues, or a wrapped reference count: the engine state is
     corrupted (use-after-free follows); comparison stops there, the monitors report it"""
@@ -263,12 +284,9 @@ def snapshot_corrupt(snap_lines):
             return "freed-record-in-timer-wheel"
         if not ln.startswith("key "):
             continue
-        if "freed" in ln:
-            return "freed-record-reachable"
-        for tok in ln.replace("cur=", " ").replace("holders=[", " ").replace("waiters=[", " ").replace("]", " ").split():
-            parts = tok.split(":")
-            if len(parts) == 13 and parts[3].isdigit() and int(parts[3]) >= 200:
-                return "refcount-underflow"
+        r = _line_corrupt(ln)
+        if r:
+            return r
     return None
 
 
@@ -339,18 +357,32 @@ class Runner:
 
     def run_cases(self, cases):
         """cases: list of list-of-lines. returns (model parsed, impl parsed, raw errors)"""
-        path = os.path.join(self.tmp, "cases.txt")
-        with open(path, "w") as f:
-            for c in cases:
-                f.write("\n".join(c) + "\n")
-        mo, me, mrc = run_bin(self.model, path)
-        io_, ie, irc = run_bin(self.impl, path)
-        errs = []
-        if mrc != 0:
-            errs.append("modelrun rc=%d %s" % (mrc, me[-500:]))
-        if irc != 0:
-            errs.append("implrun rc=%d %s" % (irc, ie[-1500:]))
-        return split_cases(mo), split_cases(io_), errs
+        # model and implementation run concurrently, the cases in up to 6 shards (cases are independent)
+        import concurrent.futures
+        nsh = 1 if len(cases) < 40 else min(6, len(cases) // 20)
+        shards = [cases[i::nsh] for i in range(nsh)]
+        self._run_seq = getattr(self, "_run_seq", 0) + 1
+        jobs = []
+        for i, sh_ in enumerate(shards):
+            path = os.path.join(self.tmp, "cases.%d.%d.txt" % (self._run_seq, i))
+            with open(path, "w") as f:
+                for c in sh_:
+                    f.write("\n".join(c) + "\n")
+            jobs.append((self.model, path, "modelrun"))
+            jobs.append((self.impl, path, "implrun"))
+        pm, pi, errs = collections.OrderedDict(), collections.OrderedDict(), []
+        with concurrent.futures.ThreadPoolExecutor(max_workers=len(jobs)) as ex:
+            outs = list(ex.map(lambda j: run_bin(j[0], j[1]), jobs))
+        for (binary, path, who), (out, err, rc) in zip(jobs, outs):
+            if rc != 0:
+                errs.append("%s rc=%d %s" % (who, rc, err[-500:] if who == "modelrun" else err[-1500:]))
+            (pm if who == "modelrun" else pi).update(split_cases(out))
+            try:
+                if who == "implrun":
+                    os.remove(path)
+            except OSError:
+                pass
+        return pm, pi, errs
 
     def compare(self, cases):
         """returns list of (case lines, diff) for mismatching cases"""
